@@ -26,6 +26,7 @@ What is proved, and from what:
   `known_findings.d/C11.json` as fixed; the harness replays them.
 -/
 import RtcModel.Theorems.C02
+import RtcModel.Lemmas.DtlsFlights
 
 namespace RtcModel.Theorems.C11
 open RtcModel.Generated RtcModel.DtlsRecord RtcModel.DtlsHs RtcModel.Theorems.C02
@@ -264,6 +265,20 @@ theorem converge_partial_fragment_ignored (C : Crypto) (L : Loc) (e : Ep) (m : H
   have h1 : resetFrag e.ctx m = e.ctx := by simp [resetFrag, hsame, hoff]
   simp [h0, h1, hfrag, hnc, withCtx]
 
+/-- converge_partial (4a'): a fragment with offset 0 *restarts* reassembly whatever the buffer held —
+also for the same `message_seq` (a retransmitted flight that the path re-fragmented differently after
+the tail of the first transmission was lost must not be blocked by the stale partial message). -/
+theorem converge_partial_first_fragment_restarts (C : Crypto) (L : Loc) (e : Ep) (m : HsMsg)
+    (hfrag : m.body.length < m.totalLen) (hoff : m.fragOff = 0) (hp : e.ctx.postHvr = false) :
+    acceptMsg C L e m = ok (withCtx e { e.ctx with incomplete := m.body, incompleteSeq := m.msgSeq }) := by
+  unfold acceptMsg
+  have h0 : clearPostHvr e = e := by simp [clearPostHvr, hp]
+  have h1 : resetFrag e.ctx m = { e.ctx with incomplete := [], incompleteSeq := m.msgSeq } := by simp [resetFrag, hoff]
+  simp only [h0, h1]
+  rw [if_pos (by omega), if_neg (by simp [hoff])]
+  simp only [appendFrag, List.nil_append]
+  simp [hfrag]
+
 /-- converge_partial (4b): two fragments delivered in order reassemble to the whole message: the
 handler runs on `a ++ b` with the transcript entry of the unfragmented message. -/
 theorem converge_partial_fragments_reassemble (C : Crypto) (L : Loc) (e : Ep) (typ msgSeq : Nat) (a b : Bytes)
@@ -309,6 +324,80 @@ theorem converge_partial_fragments_reassemble (C : Crypto) (L : Loc) (e : Ep) (t
     rw [if_neg (by simp [withCtx, appendFrag, hr])]
     rw [if_neg (by simp [withCtx, appendFrag, hr])]
     simp [withCtx, appendFrag, hr, rawMsg, encodeHs]
+
+/-! ### liveness and agreement in the closed system, for every fault schedule
+
+`RtcModel/DtlsFlights.lean` closes the model: a client and a server endpoint and a network that may
+deliver *any datagram either side ever emitted*, to the peer, at any time, any number of times, or
+never (loss, duplication, reordering, delay — `Act.toS i`, `Act.toC i`), and fire either retransmission
+timer at any time (`tickC`, `tickS`).  A schedule is any list of such actions.  The cryptography is
+interpreted *freely* (`W0`, Dolev–Yao style: distinct tokens for message bodies, decoders accept exactly
+the peer's tokens, ECDH succeeds exactly for the two genuine shares, verify_data and the AEAD tag are
+injective-by-construction functions of their arguments), so no test in the handshake succeeds or fails
+by accident of concrete values; the control flow is that of any consistent real instantiation.  The set
+of reachable states (`reach0`, 9 states — out-of-order datagrams are ignored, so the adversary can only
+delay) is computed by the kernel and shown closed; the theorems then hold for schedules of any length. -/
+
+open RtcModel.DtlsFlights in
+/-- **converge_if_delivered** (closed system, free crypto): after *any* fault schedule whatsoever, two
+fair rounds — both timers tick, then everything each side ever emitted is delivered in emission order —
+leave both endpoints Connected.  Two rounds are two seconds of the 1 s retransmission timer, far inside
+the 30 s handshake deadline. -/
+theorem converge_if_delivered (acts : List Act) :
+    bothConnected (fairRound W0 (fairRound W0 ((Sys.init W0).run W0 acts))) = true := by
+  have hmem := closed_run reach0_closed acts (Sys.init W0) reach0_init
+  have := reach0_good
+  rw [List.all_eq_true] at this
+  exact this _ hmem
+
+open RtcModel.DtlsFlights in
+/-- **agreement in the closed system** (no hypothesis needed here: the binding of verify_data to its
+inputs holds by construction in the free interpretation): after any fault schedule, if both endpoints
+are Connected they hold the same key block *and the same SRTP profile*; and no schedule of an honest
+network drives an endpoint to Failed or Closed. -/
+theorem closed_system_agreement (acts : List Act) :
+    let σ := (Sys.init W0).run W0 acts
+    ((σ.c.conn = .connected ∧ σ.s.conn = .connected) → σ.c.connKeys = σ.s.connKeys ∧ σ.c.connSrtp = σ.s.connSrtp ∧ σ.c.connKeys.isSome = true) ∧
+    σ.c.conn ≠ .failed ∧ σ.s.conn ≠ .failed ∧ σ.c.conn ≠ .closed ∧ σ.s.conn ≠ .closed := by
+  intro σ
+  have hmem : σ ∈ reach0 := closed_run reach0_closed acts (Sys.init W0) reach0_init
+  have h1 := reach0_agree
+  have h2 := reach0_no_failure
+  rw [List.all_eq_true] at h1 h2
+  have a := h1 σ hmem
+  have b := h2 σ hmem
+  simp only [Bool.or_eq_true, Bool.not_eq_true', Bool.and_eq_true, beq_iff_eq, decide_eq_true_eq, bne_iff_ne, ne_eq,
+    Bool.and_eq_false_iff, beq_eq_false_iff_ne] at a b
+  refine ⟨?_, b.1.1.1.1.1, b.1.1.1.1.2, b.1.1.1.2, b.1.1.2⟩
+  intro ⟨hc, hs⟩
+  rcases a with a | a
+  · rcases a with a | a
+    · exact absurd hc a
+    · exact absurd hs a
+  · exact ⟨a.1.1, a.1.2, a.2⟩
+
+open RtcModel.DtlsFlights in
+/-- the same two statements in a second free world (`W1`: no extended master secret, no SRTP profile,
+no expected fingerprint at the client, an — unchecked, see C02 — expected fingerprint at the server) -/
+theorem converge_if_delivered_w1 (acts : List Act) :
+    bothConnected (fairRound W1 (fairRound W1 ((Sys.init W1).run W1 acts))) = true ∧
+    (((Sys.init W1).run W1 acts).c.conn = .connected → ((Sys.init W1).run W1 acts).s.conn = .connected →
+      ((Sys.init W1).run W1 acts).c.connKeys = ((Sys.init W1).run W1 acts).s.connKeys ∧
+      ((Sys.init W1).run W1 acts).c.connSrtp = ((Sys.init W1).run W1 acts).s.connSrtp) := by
+  have hmem := closed_run reach1_closed acts (Sys.init W1) reach1_init
+  have h1 := reach1_good
+  have h2 := reach1_agree
+  rw [List.all_eq_true] at h1 h2
+  refine ⟨h1 _ hmem, ?_⟩
+  intro hc hs
+  have a := h2 _ hmem
+  simp only [Bool.or_eq_true, Bool.not_eq_true', Bool.and_eq_true, beq_iff_eq, decide_eq_true_eq,
+    Bool.and_eq_false_iff, beq_eq_false_iff_ne] at a
+  rcases a with a | a
+  · rcases a with a | a
+    · exact absurd hc a
+    · exact absurd hs a
+  · exact ⟨a.1.1, a.1.2⟩
 
 /-! ### non-vacuity / recovery on a concrete instance -/
 
